@@ -82,8 +82,17 @@ fn gen_what(r: &mut Prng, types: &[usize], pool: &mut Vec<crate::subjects::Amt>)
     };
     let ty = *r.pick(types);
     let unit = r.below((TABLE[ty].n_units)());
-    match r.below(10) {
+    match r.below(11) {
         0 => (What::Unit { ty, unit }, gen_spec(r, true)),
+        10 => {
+            let b_ty = *r.pick(types);
+            let b_unit = r.below((TABLE[b_ty].n_units)());
+            let (a, b) = (amount_of(r), amount_of(r));
+            (
+                What::Pair { a_ty: ty, a_unit: unit, a, b_ty, b_unit, b, form: r.below(crate::subjects::PAIR_FORMS) },
+                Spec::default(),
+            )
+        }
         1 => {
             let pair = r.below(RATES.len());
             let mut per = amount_of(r);
@@ -161,6 +170,10 @@ fn lite_op(what: &mut What, spec: &mut Spec, seed: u64) {
             }
         }
         What::Unit { .. } => {}
+        What::Pair { a, b, .. } => {
+            small(a, 21);
+            small(b, 22);
+        }
     }
     spec.width = spec.width.map(|w| w % 13);
     spec.prec = spec.prec.map(|p| p % 5);
@@ -182,10 +195,14 @@ fn generate_full(seed: u64, lite: bool) -> Plan {
     let k = 1 + r.below(4);
     let types: Vec<usize> = (0..k).map(|_| r.below(TABLE.len())).collect();
     let n_threads = if lite { 3 } else { 1 + r.below(4) };
+    // now and then a long history on few threads: state that only goes wrong
+    // after hundreds of displays on one thread needs it
+    let long = !lite && r.chance(1, 250);
+    let n_threads = if long { 1 + r.below(2) } else { n_threads };
     let mut threads = Vec::new();
     let mut pool = Vec::new();
     for _ in 0..n_threads {
-        let n_ops = 1 + r.below(5);
+        let n_ops = if long { 260 + r.below(300) } else { 1 + r.below(5) };
         let mut ops = Vec::new();
         for _ in 0..n_ops {
             let (what, spec) = gen_what(&mut r, &types, &mut pool);
